@@ -24,7 +24,11 @@ let crc32_sub (s : string) (off : int) (len : int) : int =
     c := crc_table.((!c lxor Char.code (String.unsafe_get s i)) land 0xff) lxor (!c lsr 8)
   done; !c lxor 0xFFFFFFFF
 let crc32 s = crc32_sub s 0 (String.length s)
-let digest s = Printf.sprintf "%d:%08x" (String.length s) (crc32 s)
+let digest_skip = ref 0   (* stream cases: the header carries a time stamp *)
+let digest s =
+  let l = String.length s in
+  let k = if !digest_skip > 0 && l >= !digest_skip then !digest_skip else 0 in
+  Printf.sprintf "%d:%08x" l (crc32_sub s k (l - k))
 
 let lcg_bytes (seed : int) (n : int) : string =
   let x = ref (seed land 0x7fffffff) in
@@ -249,7 +253,7 @@ let notif_s (n : notif) : string =
   Printf.sprintf "type=IS sh=%s to=%s from=%s did=%s binver=%s %s"
     (sn n.n_shard) (sn n.n_to) (sn n.n_from) (sn n.n_did) (sn n.n_binver) (snapshot_s n)
 
-let state_s (st : (string, v) state) : string =
+let state_parts (st : (string, v) state) =
   let tr = sorted (List.map (fun (k, td) ->
     Printf.sprintf "%s:%s:%s:%s:%d" (key_s k) (sn td.t_next) (sn td.t_first.c_from) (sn td.t_tick)
       (List.length td.t_files)) st.s_tracked) in
@@ -257,6 +261,10 @@ let state_s (st : (string, v) state) : string =
   let fin = sorted (List.map (fun (k, fd) ->
     key_s k ^ "{" ^ dir_s fd.fd_files ^ "}flag{" ^ snapshot_s fd.fd_flag ^ "}") st.s_finals) in
   let rm = sorted (List.map (fun ((a, b), ()) -> sn a ^ "." ^ sn b) st.s_removed) in
+  (tr, tmp, fin, rm)
+
+let state_s (st : (string, v) state) : string =
+  let (tr, tmp, fin, rm) = state_parts st in
   let nn = List.length st.s_out in
   Printf.sprintf "tick=%s T[%s] D[%s] F[%s] X[%s] N=%d C=%d stray=0" (sn st.s_tick)
     (String.concat " " tr) (String.concat " " tmp) (String.concat " " fin) (String.concat " " rm) nn nn
@@ -319,6 +327,59 @@ let run_sender (id : string) (h : header) (body : string) =
   | Some chunks ->
     List.iteri (fun i (m, d) -> Printf.printf "%s %d c %s %s\n" id i (meta_string m) (digest d)) chunks
 
+(* ---------- stream mode ---------- *)
+let be32_s (x : int) = String.init 4 (fun i -> Char.chr ((x lsr (8 * (3 - i))) land 0xff))
+let le64_s (x : int) = String.init 8 (fun i -> Char.chr ((x lsr (8 * i)) land 0xff))
+
+(* a header the validator transcription accepts: ChecksumType 0, Version 2 *)
+let synthetic_header () =
+  let body = "\x38\x00\x40\x02" in
+  let h = le64_s (String.length body) ^ body ^ be32_s (crc32 body) in
+  h ^ String.make (header_size - String.length h) '\000'
+
+let run_stream (id : string) (fields : string list) (body : string) =
+  let get k = let p = k ^ "=" in
+    let f = List.find (fun s -> String.length s > String.length p && String.sub s 0 (String.length p) = p) fields in
+    String.sub f (String.length p) (String.length f - String.length p) in
+  let bs = int_of_string (get "bs") in
+  let did = ns (get "did") and idx = int_of_string (get "idx") in
+  let payload = match split_ws body with ["P"; d] -> expand_pieces d | _ -> failwith "bad stream body" in
+  digest_skip := header_size;
+  let n = String.length payload in
+  let rec blocks off acc total =
+    if off >= n then (List.rev acc, total) else
+      let l = min bs (n - off) in
+      let b = String.sub payload off l in
+      blocks (off + l) ((b ^ be32_s (crc32 b)) :: acc) (total + l + 4) in
+  let (bl, total) = blocks 0 [] 0 in
+  let datas = bl @ [le64_s total ^ magic] in
+  let datas = match datas with d :: r -> (synthetic_header () ^ d) :: r | [] -> [] in
+  let name = Printf.sprintf "snapshot-%016X.gbsnap" idx in
+  let msg = { m_shard = ns (get "sh"); m_to = ns (get "rp"); m_from = ns (get "from"); m_index = ns (get "idx");
+              m_term = ns (get "term"); m_odi = ns (get "odi"); m_path = bytes_of_hex (hex_of_string name);
+              m_fsize = N0; m_files = []; m_witness = false } in
+  let chunks = stream_chunks "" dlen msg did datas in
+  let real = (bs = block_size) in
+  let va = if real then vadd else (fun v _ _ -> VOk v) in
+  let vf = if real then vfinal else (fun _ -> true) in
+  let st = ref (init : (string, v) state) in
+  (try
+    List.iteri (fun i (m, d) ->
+      let l = String.length d in
+      let k = if i = 0 && l >= header_size then header_size else 0 in
+      Printf.printf "%s %d c %s %d:%08x\n" id i (meta_string m) l (crc32_sub d k (l - k));
+      let res = match step dapp vinit va vf fix_mid fix_first did snapshot_gc_tick snapshot_chunk_timeout_tick
+                        max_concurrent_slot !st (OAdd (m, d)) with
+        | Done (st', ok) -> st := st'; if ok then "ok" else "rej"
+        | Panic -> "panic" in
+      let (tr, tmp, fin, _) = state_parts !st in
+      Printf.printf "%s r%d %s T[%s] D[%s] F[%s] N=%d\n" id i res (String.concat " " tr) (String.concat " " tmp)
+        (String.concat " " fin) (List.length !st.s_out);
+      if res = "panic" then raise Exit) chunks
+  with Exit -> ());
+  List.iter (fun nf -> Printf.printf "%s notif %s\n" id (notif_s nf)) (List.rev !st.s_out);
+  digest_skip := 0
+
 let () =
   iter_lines (fun line ->
     if line = "" || line.[0] = '#' then () else
@@ -332,6 +393,7 @@ let () =
       Printf.printf "%s CONST cs=%s gc=%s to=%s slots=%s binver=%s last=%s flag=%s hdr=%s\n" id
         (sn snapshot_chunk_size) (sn snapshot_gc_tick) (sn snapshot_chunk_timeout_tick) (sn max_concurrent_slot)
         (sn transport_bin_version) (sn last_chunk_count) (hex_of_bytes snapshot_flag_filename) (sn snapshot_header_size)
+    | id :: "T" :: fields -> run_stream id fields body
     | id :: "R" :: fields -> run_receiver id (parse_header_fields fields) body
     | id :: "S" :: fields -> run_sender id (parse_header_fields fields) body
     | [] -> ()
